@@ -241,7 +241,7 @@ theorem edge_sim (D : NetD) (s : State Int) (hp : s.prepared = [])
       have := foldl_nstep_hit d _ s.nxt hnd (g j) hmem
       rw [hq1] at this
       rw [this]
-      show Bits.put (D.wd (D.regs.getD j default).q) _ = _
+      show Bits.put (D.wd (D.regs.getD j default).q) ((regNextV s.val (D.regs.getD j default) (old j) : Nat) : Int) = _
       rw [hRd]
     · show (clockDrivers d s d.drivers).st (D.rid j) = _
       rw [hstk, if_pos (by unfold NetD.regIds; exact List.mem_map.mpr ⟨j, List.mem_range.mpr hj, rfl⟩), hres j hj, hRd]
